@@ -2,7 +2,7 @@
 
 
 def nat(n):
-    assert isinstance(n, int) and 0 <= n < 5000, n
+    assert isinstance(n, int) and 0 <= n < 5000, n   # nat literals stay small
     return str(n)
 
 
